@@ -344,6 +344,7 @@ func (b *BloomSearchEngine) Stop(ctx context.Context) error {
 		// report the deadline rather than nil.
 		if err := ctx.Err(); err != nil {
 			b.flushCancel()
+			verifPoint("stop.ret_deadline", 0, 0, nil)
 			return fmt.Errorf("shutdown timeout exceeded: %w", err)
 		}
 		// Workers finished gracefully
